@@ -164,10 +164,10 @@ CHECKS["C09"] = {
     "covers": {"all": ["ZZ_C09_Loop:C09.done", "ZZ_C09_Loop:C09.retry", "ZZ_C09_Loop:C09.abandon", "ZZ_C09_Loop:C09.response.matched",
                        "ZZ_C09_Loop:C09.response.unmatched", "ZZ_C09_Loop:C09.expiry.dead"]},
     "bounds": {
-        "quick": "the real event loop; transmit counter symbolic over 0..2^24-1 (so the second request crosses the 24-bit boundary), retry limit 0..3, 1..2 Session Report Requests for two sessions of two peers, then 3 events each a retransmission-timer expiry of either request or a Session Report Response from either peer with a symbolic 24-bit sequence number, in every order",
+        "quick": "the real event loop; transmit counter symbolic over the whole 32-bit range (so that a run can sit on either side of, or cross, the 2^24 and the 2^32 boundary), retry limit 0..3, 1..2 Session Report Requests for two sessions of two peers, then 3 events each a retransmission-timer expiry of either request or a Session Report Response from either peer with a symbolic 24-bit sequence number, in every order",
         "thorough": "same with 4 events",
     },
-    "outside": "more than 2 outstanding requests; counters beyond 2^24 requests after start (unreachable once the counter wraps at 24 bits); real timers",
+    "outside": "more than 2 outstanding requests; real timers (an expiry is injected only for a transaction whose timer the code armed)",
     "assumptions": PFCP_ASSUME,
 }
 
